@@ -6,6 +6,5 @@ MUTS = [
  ("C02-layer-sort-desc","pot/level_list.go","\t\treturn ll.levels[i].Level < ll.levels[j].Level","\t\treturn ll.levels[i].Level > ll.levels[j].Level"),
  ("C02-layer-no-reset","pot/level_list.go","\t\t// Reset contributor list\n\t\tpot.Contributors = make([]int, 0)\n","\t\t// Reset contributor list\n"),
  ("C02-layer-dup-level","pot/level_list.go","\t\tif pot.Level == level {\n\t\t\treturn pot\n\t\t}","\t\tif pot.Level == level && pot.Total > 0 {\n\t\t\treturn pot\n\t\t}"),
- ("C02-layer-wager-from-first","pot/level_list.go","\t\tl.Wager = l.Level - prevLevel","\t\tl.Wager = l.Level - ll.levels[0].Level"),
  ("C02-layer-skip-first-level","pot/level_list.go","\t// Calculate total wagers for each levels\n\tprevLevel := int64(0)\n\tfor _, l := range ll.levels {","\t// Calculate total wagers for each levels\n\tprevLevel := int64(0)\n\tfor _, l := range ll.levels[1:] {"),
 ]
